@@ -164,6 +164,14 @@ class MultiTypeMap(dict):
             for c in candidates:
                 specificities.setdefault(c, []).append(results[c])
 
+        if candidates is None:
+            # No arguments: every handler that can be called without any
+            candidates = {
+                h
+                for h, sig in self.signatures.items()
+                if sig.req_pos == 0 and not sig.req_names
+            }
+
         def _registered_types(handler):
             # The types the handler was registered with for the given arguments
             tup = self.type_tuples[handler]
@@ -177,7 +185,7 @@ class MultiTypeMap(dict):
             Candidate(
                 handler=c,
                 priority=self.priorities.get(c, 0),
-                specificity=tuple(specificities[c]),
+                specificity=tuple(specificities.get(c, ())),
                 tiebreak=self.tiebreaks.get(c, 0),
                 types=_registered_types(c),
                 signature=self.signatures.get(c, None),
@@ -395,13 +403,6 @@ class MultiTypeMap(dict):
                 return self[obj_t_tup]
             else:
                 raise self.key_error(real_tup, ())
-
-        if not obj_t_tup:
-            if self.empty is MISSING:  # pragma: no cover
-                # Might not be reachable because of codegen
-                raise self.key_error(obj_t_tup, ())
-            else:
-                return self.empty[0]
 
         self.resolve(obj_t_tup)
         if obj_t_tup in self.errors:
